@@ -30,4 +30,46 @@ PROPS = {
     },
 }
 
+
+def _net(prop, q_cases, t_cases, max_size, subs=(None,), budget_ms=20000, excl=()):
+    def runs(tier):
+        n = q_cases if tier == "quick" else t_cases
+        per = max(1, 16 // len(subs))
+        out = []
+        for sb in subs:
+            r = {"cfg": "dbg", "harness": "h_net", "cases": n, "max_size": max_size, "shards": per, "budget_ms": budget_ms, "excl": list(excl)}
+            if sb:
+                r["sub"] = sb
+            out.append(r)
+        return out
+    return runs
+
+
+PROPS["C13"] = {
+    "runs": _net("C13", 700, 12000, 120),
+    "rule": "Case: 2-8 boolean variables, 0-3 of them decided at root beforehand, then 1-5 requests among new_eq/new_conj/new_disj/new_at_most_one/new_exct_one "
+            "with argument lists of length 0-12 (signs, duplicates, complementary pairs, TRUE/FALSE constants, root-decided arguments, results of earlier "
+            "eq/conj/disj requests, repeated and permuted requests hitting the expression cache). Oracle on the ACTUAL encoding (clause database + root values, hook H2), "
+            "decided by Z3 and an exhaustive enumeration of all assignments of the argument variables consistent with the root units: eq/conj/disj literal == formula in every "
+            "model and every assignment extends to a model; cardinality literal true => constraint holds, and every assignment satisfying the constraint is compatible with the "
+            "literal being true. Non-trivial: a root-decided argument, or >= 4 arguments (product encoding), or a repeated/permuted request. Distinct by rendered request list.",
+    "technique": "property-based testing (rapidcheck tapes) with per-case exhaustive truth-table enumeration of the real encoding, Z3 as SAT oracle",
+    "level_text": "Random request sequences; per case the space of argument assignments (<= 256) is enumerated completely against the clause database the code actually built. "
+                  "Sampling over request shapes, exhaustive within a case.",
+    "level_note": "Trusted: Z3 as a propositional SAT oracle, hook H2 (dump of clauses), set semantics for repeated arguments of cardinality constraints (DESIGN C13).",
+    "assumptions": ["argument lists of cardinality constraints are read as sets of literals", "results of at-most-one/exactly-one are not used as arguments of other requests"],
+}
+PROPS["C14"] = {
+    "runs": _net("C14", 500, 8000, 120),
+    "rule": "Case: 1-4 object variables over values 0..4 (domains of 1-4 values: singleton, nested, overlapping, disjoint), 0-6 equality requests over all pairs "
+            "(both orders, repeated), then 0-10 assume/pop steps on value and equality literals. Oracle on the actual encoding (H2 + Z3): exactly one allowed value in every model, "
+            "equality literal == same value in every model, FALSE literal for disjoint domains, every combination of allowed values (enumerated exhaustively) has a model, "
+            "allows() is the recorded literal / FALSE for foreign values; after every step value(v) == values whose literal is not false and every reported literal value is "
+            "entailed. Non-trivial: >= 2 variables with partially overlapping domains and an equality, or a singleton or disjoint pair. Distinct by rendered case.",
+    "technique": "property-based testing (rapidcheck tapes), exhaustive enumeration of value combinations per case, Z3 as SAT oracle on the real encoding",
+    "level_text": "Random domains/equalities/histories; per case all value combinations are enumerated against the real clause database.",
+    "level_note": "Trusted: Z3, hook H2. Variables created with enforce_exct_one=false (the planner's own path) are exercised at solver level, not here.",
+    "assumptions": [],
+}
+
 NOT_CLAIMED = {}
